@@ -130,24 +130,28 @@ Definition unmarshal (input : list N) : outcome ures :=
   | OutOfFuel => OutOfFuel
   end.
 
-(** ** DecodeSeries.  [tm name] says whether the TypeMaker knows the type
-    (the value it makes is the caller's business: here every known type
-    accepts every JSON value, as a [*json.RawMessage] does). *)
+(** ** DecodeSeries.  The TypeMaker is the caller's: [tm name] is [None] for
+    an unknown type, else [Some accepts] where [accepts json] says whether
+    strict decoding (encoding/json with DisallowUnknownFields, trusted) of
+    the entry's JSON into the value the TypeMaker made succeeds. *)
 
-Definition series_entry (tm : list N -> bool) (acc : list ecode * list (list N * list N))
+Definition series_entry (tm : list N -> option (list N -> bool))
+           (acc : list ecode * list (list N * list N))
            (e : list N * @value F) : list ecode * list (list N * list N) :=
   let '(errs, res) := acc in
   let '(name, v) := e in
-  if negb (tm name) then (add_err errs EUnknownType, res)
-  else
-    match encode_value v with
-    | Some t =>
-        if json_valid t then (errs, res ++ [(name, t)])
-        else (add_err errs EMarshalJSON, res)
-    | None => (add_err (add_err errs EEncode) EMarshalJSON, res)
-    end.
+  match tm name with
+  | None => (add_err errs EUnknownType, res)
+  | Some accepts =>
+      match encode_value v with
+      | Some t =>
+          if accepts t then (errs, res ++ [(name, t)])
+          else (add_err errs EMarshalJSON, res)
+      | None => (add_err (add_err errs EEncode) EMarshalJSON, res)
+      end
+  end.
 
-Definition decode_series_stream (tm : list N -> bool) (s : pstream)
+Definition decode_series_stream (tm : list N -> option (list N -> bool)) (s : pstream)
   : option (option (list (list N * list N)) * list ecode) :=
   let st := p_init s in
   match parse_series pf (parse_fuel st) st [] with
@@ -164,10 +168,63 @@ Definition decode_series_stream (tm : list N -> bool) (s : pstream)
       end
   end.
 
-Definition decode_series (tm : list N -> bool) (input : list N)
+Definition decode_series (tm : list N -> option (list N -> bool)) (input : list N)
   : outcome (option (list (list N * list N)) * list ecode) :=
   match jsonx_stream input with
   | Ok s => match decode_series_stream tm s with Some r => Ok r | None => OutOfFuel end
+  | Panic w => Panic w
+  | OutOfFuel => OutOfFuel
+  end.
+
+(** ** A Decoder used for several values: Decode, More, Decode, ...
+
+    [decode_step] is one call of [Decoder.Decode] on the parser state the
+    previous call left; [more] is [Decoder.More].  [decode_stream] is the
+    caller's loop [for d.More() { if errs := d.Decode(&v); errs != nil
+    { return } }], with fuel. *)
+
+Inductive dres :=
+| DOk (json : list N)          (* nil errors: the JSON text given to json.Unmarshal *)
+| DErrs (errs : list ecode)    (* the error list Decode returned *)
+| DJsonErr (json : list N).    (* json.Unmarshal rejected the text *)
+
+Definition decode_step (st : pstate) : option (dres * pstate) :=
+  match parse_value pf (parse_fuel st) st with
+  | None => None
+  | Some (v, st1) =>
+      match p_errs st1 with
+      | e :: l => Some (DErrs (e :: l), st1)
+      | [] =>
+          let st2 := if p_see TSemi st1 then p_next st1 else st1 in
+          match marshal_value v with
+          | (Some t, _) => if json_valid t then Some (DOk t, st2) else Some (DJsonErr t, st2)
+          | (None, es) => Some (DErrs es, st2)
+          end
+      end
+  end.
+
+Definition more (st : pstate) : bool := negb (p_see TEOF st).
+
+Fixpoint decode_stream (fuel : nat) (st : pstate) (acc : list (list N))
+  : option (list (list N) * option dres) :=
+  match fuel with
+  | O => None
+  | S f =>
+      if more st then
+        match decode_step st with
+        | None => None
+        | Some (DOk t, st') => decode_stream f st' (acc ++ [t])
+        | Some (r, _) => Some (acc, Some r)
+        end
+      else Some (acc, None)
+  end.
+
+Definition stream_fuel (st : pstate) : nat := S (S (length (rest st))).
+
+Definition decode_all (input : list N) : outcome (list (list N) * option dres) :=
+  match jsonx_stream input with
+  | Ok s => match decode_stream (stream_fuel (p_init s)) (p_init s) [] with
+            | Some r => Ok r | None => OutOfFuel end
   | Panic w => Panic w
   | OutOfFuel => OutOfFuel
   end.
